@@ -582,6 +582,61 @@ def check_float_fold_overflow(idx: Index, rep: Report) -> None:
         raise AnalysisError(f"{CP}: no FloatAttr built from a computed value found")
 
 
+def check_float_units(idx: Index, rep: Report) -> None:
+    """`x + 0.0` is not `x` for x = -0.0 (the sum is +0.0), `x - (-0.0)` likewise: a float operation may be replaced by one
+    of its operands because the other is a constant only if the test distinguishes the two zeros (0.0 == -0.0 in Python)."""
+    r = rep.rule("C14.R13", "a floating-point operation is replaced by one of its own operands under a test `<constant payload> == <value>` only when that value is not a zero, or the sign of the zero is tested as well", floor=None)
+    mi = idx.module(CP)
+    n = 0
+    for f in raw_funcs(mi):
+        if f.name != "match_and_rewrite":
+            continue
+        cfg = None
+        for c in calls_in(f.node):
+            if not (unparse(c.func) == "rewriter.replace" or call_attr(c) in ("replace_matched_op", "replace_op")):
+                continue
+            # replaced by its own operand(s)
+            newvals = c.args[2] if len(c.args) > 2 else next((k.value for k in c.keywords if k.arg in ("new_results",)), None)
+            if newvals is None or not re.search(r"\bop\.(lhs|rhs)\b", unparse(newvals)):
+                continue
+            if cfg is None:
+                cfg = CFG(f.node)
+            for t, pol in guard_facts(f.node, c):
+                if not pol or not isinstance(t, ast.Compare) or len(t.ops) != 1 or not isinstance(t.ops[0], ast.Eq):
+                    continue
+                sides = [t.left, t.comparators[0]]
+                payload = [x for x in sides if re.search(r"\.value\.data$", unparse(x))]
+                if not payload:
+                    continue
+                other = next(x for x in sides if x is not payload[0])
+                ot = resolved_text(cfg, other, cfg.node_of(c))
+                vals: list[object] = []
+                try:
+                    oe = ast.parse(ot, mode="eval").body
+                except SyntaxError:
+                    continue
+                if isinstance(oe, ast.Constant):
+                    vals = [oe.value]
+                elif isinstance(oe, ast.UnaryOp) and isinstance(oe.op, ast.USub) and isinstance(oe.operand, ast.Constant):
+                    vals = [-oe.operand.value]
+                else:
+                    for nm_ in {x.id for x in ast.walk(oe) if isinstance(x, ast.Name)}:
+                        d_ = mi.assigns.get(nm_)
+                        if isinstance(d_, ast.Dict):
+                            vals += [v_.value for v_ in d_.values if isinstance(v_, ast.Constant)]
+                floats = [v_ for v_ in vals if isinstance(v_, float)]
+                if not floats:
+                    continue
+                n += 1
+                inst = f"{f.fq}:{unparse(t)[:50]}"
+                facts_txt = " ".join(unparse(t2) for t2, _ in guard_facts(f.node, c))
+                if any(v_ == 0.0 for v_ in floats) and not re.search(r"copysign|signbit|hex\(|is_negative|struct\.pack", facts_txt):
+                    r.fail(inst, Finding("C14.R13", f.fq, "signed-zero-unit", f"`{unparse(c)[:60]}` replaces a floating-point operation by its operand when `{unparse(t)[:70]}`, and the compared value can be 0.0: Python's `==` does not tell +0.0 from -0.0, but `x + (+0.0)` and `x - (-0.0)` are +0.0 for x = -0.0, not x", f"{CP}:{c.lineno}"))
+                else:
+                    r.ok(inst, f"{CP}:{c.lineno} unit test on a non-zero value / sign-aware")
+    r.ok("self-check", f"{n} float unit eliminations found in {CP}")
+
+
 def check_divf_zero(idx: Index, rep: Report) -> None:
     """x / ±0.0: the fold special-cases a zero divisor (Python raises ZeroDivisionError).  IEEE 754 gives an infinity
     whose sign is the product of the signs of x and of the zero, and nan for 0 / 0 and nan / 0: every value assigned
@@ -672,6 +727,7 @@ def check(idx: Index, rep: Report, tier: str) -> str:
     rep.run(check_select_patterns, idx, rep)
     rep.run(check_float_fold_overflow, idx, rep)
     rep.run(check_divf_zero, idx, rep)
+    rep.run(check_float_units, idx, rep)
     return (
         "Table-agreement and guard rules over arith's folders, the arith canonicalization patterns, constant-fold-interp, "
         "the constant-folding test pass and CSE: folded integers are truncated, fold patterns catch what the interpreter "
